@@ -99,7 +99,7 @@ func adapterModels(c *Ctx, dn davNames, failing bool) ModelFn {
 			case dn.homeSetPath:
 				return Tuple{[]Val{SymStr{Key: "homeSetPath"}, kNil}}, true
 			case dn.listColl:
-				n := in.chooseInt("collections", 2)
+				n := in.chooseInt("collections", scopeBound)
 				s := Slice{NonNil: n > 0}
 				for i := 0; i < n; i++ {
 					k := fmt.Sprintf("coll%d", i)
@@ -180,7 +180,7 @@ func effectNames(trace []Effect, prefix string) []string {
 func scopeOracle(env *OracleEnv, level int, depth int64, nameOf func(string) string) ([]string, bool) {
 	colls := func(withObjects bool) []string {
 		var out []string
-		n := env.ch.choose("collections", 2, nil)
+		n := env.ch.choose("collections", scopeBound, nil)
 		for i := 0; i < n; i++ {
 			ck := fmt.Sprintf("coll%d", i)
 			out = append(out, "emit("+ck+".Path)")
@@ -239,6 +239,10 @@ func objsOf(env *OracleEnv, collPath string) []string {
 
 var depthVals = []int64{0, 1, -1}
 
+// scopeBound: collections and objects per collection range over [0, scopeBound)
+// (quick: 0..1, thorough: 0..2)
+var scopeBound = 2
+
 func adapterSpec(c *Ctx, dn davNames, fn *ssa.Function, failing bool) DTXSpec {
 	return DTXSpec{Name: dn.short + ".backend." + fn.Name(), Entry: fn,
 		Sym: SymSpec{NonNil: func(k string) bool { return true },
@@ -280,9 +284,12 @@ func adapterSpec(c *Ctx, dn davNames, fn *ssa.Function, failing bool) DTXSpec {
 // current user's exposes none of the current user's resources").
 func davScopeTables(c *Ctx, pr *PropertyRun, prop string, withWebdav bool) {
 	p := c.P
+	if c.Thorough() {
+		scopeBound = 3
+	}
 	scope := NewRule(prop, prop+".scope", "the responses emitted by the three adapters' PropFind as a function of Depth, hierarchy level and ownership equal the level table (E2)")
 	scope.Exhaustive = true
-	scope.Bounds = "Depth in {0,1,infinity}; six levels; <= 1 collection, <= 1 object per collection"
+	scope.Bounds = fmt.Sprintf("Depth in {0,1,infinity}; six levels; <= %d collection(s), <= 1 object per collection", scopeBound-1)
 	pr.Rules = append(pr.Rules, scope)
 	for _, pkg := range []string{pkgCaldav, pkgCarddav} {
 		dn := davNamesOf(pkg)
